@@ -32,7 +32,7 @@ func RunOne(t *testing.T, sc *Scenario, tier string, tape *sim.Tape, keepAll boo
 	if sc.Driver != nil && tape.Params == nil {
 		return sc.Driver(t, sc, tier, tape, keepAll)
 	}
-	res := runBubble(t, tier, tape, keepAll, func(w *World) (bool, interface{}) { return sc.Run(w, tier) })
+	res := runBubble(t, tier, tape, keepAll, func(w *World) (bool, interface{}) { w.Prop = sc.Prop; return sc.Run(w, tier) })
 	res.Params = tape.Params
 	return res
 }
